@@ -43,6 +43,15 @@ def f_and(*fs):
             out.extend(f[1])
         else:
             out.append(f)
+    # duplicates and complementary pairs (x and not x)
+    uniq = []
+    for f in out:
+        if f not in uniq:
+            uniq.append(f)
+    out = uniq
+    for f in out:
+        if f_not(f) in out:
+            return FALSE
     if not out:
         return TRUE
     if len(out) == 1:
@@ -61,6 +70,15 @@ def f_or(*fs):
             out.extend(f[1])
         else:
             out.append(f)
+    # duplicates and complementary pairs (x or not x): the two arms of an if without else join to "always"
+    uniq = []
+    for f in out:
+        if f not in uniq:
+            uniq.append(f)
+    out = uniq
+    for f in out:
+        if f_not(f) in out:
+            return TRUE
     if not out:
         return FALSE
     if len(out) == 1:
